@@ -24,6 +24,7 @@ import (
 	"math/rand"
 	"os"
 	"path/filepath"
+	"runtime"
 	"strconv"
 	"strings"
 	"time"
@@ -206,6 +207,16 @@ type clientStream struct {
 
 func (cs *clientStream) Send(r *protoReplicaV1.ReplicaRequest) error {
 	w := cs.p.w
+	if w.tickGate != nil {
+		// area `tick`: the replica call is held here — Consume has moved the consumed sequence, the request has not
+		// left — until the schedule says what becomes of it (delivered and answered, or lost)
+		w.tickSeq = r.ReplicaIndex
+		w.tickAtSend <- struct{}{}
+		if v := <-w.tickGate; v == "lose" {
+			w.sendTried, w.sendFailed = true, true
+			return errors.New("injected: request lost (tick)")
+		}
+	}
 	w.sendTried = true
 	if cs.s.closed || cs.s.gen != cs.p.fgen || cs.p.connClosed(cs.s.conn) {
 		w.sendFailed = true
@@ -361,6 +372,7 @@ type peer struct {
 	wasOffline, sawOffOn, sawFclose bool // for the liveness oracle's key
 	buildFailed                     bool // BuildReplicaForLeader returned nil but built nothing
 	pending                         chan string
+	gid                             int64 // goroutine id of this follower's current (or parked) replica call
 	grp                             queue.ConsumerGroup // this follower's consumer group on the leader (handle of the current incarnation)
 	stopped                         bool                // the group is not registered on the leader (never added, or stopped by IsExpire)
 	born                            bool                // the group's directory exists on the leader
@@ -414,6 +426,14 @@ type world struct {
 	hsSeen, hsReset                   bool
 	hsRemoteAck, hsLeaderApp          int64
 	hsLeaderCons                      int64
+
+	// area `tick` (tick.go): the gate inside the loopback's Send and the expiry check held at its yield point
+	tickGate   chan string   // non-nil: Send waits here for "ack" / "lose"
+	tickAtSend chan struct{} // a replica call has reached the gate
+	tickSeq    int64         // ... with this replica index
+	tickArmed  bool          // hold IsExpire at the yield point c08-expire-tested
+	tickAtStop chan struct{} // IsExpire has found a drained group and is about to call stopReplicator
+	tickGo     chan struct{} // let it go on
 
 	// oracle bookkeeping
 	lossSeen bool              // an lrestore happened
@@ -781,22 +801,91 @@ func (w *world) resetStepFlags(fault string) {
 	w.hsSeen, w.hsReset = false, false
 }
 
-// waitStep waits until the step goroutine finished or parked on `<-r.suspend`.
+// ---- where a goroutine is, read from the runtime's own goroutine dump (taken with the world stopped). The
+// verdict "the loop is parked" is never a matter of timing: it is "the goroutine of this replica call is in a
+// channel receive whose innermost non-runtime frame is remoteReplicator.IsReady" (the only receive there is
+// `<-r.suspend`), whatever shape the suspend / wake-up handshake has (unbuffered + blocking send, token channel).
+
+func curGoid() int64 {
+	var buf [64]byte
+	n := runtime.Stack(buf[:], false)
+	f := strings.Fields(string(buf[:n]))
+	if len(f) < 2 {
+		return -1
+	}
+	id, err := strconv.ParseInt(f[1], 10, 64)
+	if err != nil {
+		return -1
+	}
+	return id
+}
+
+var stackBuf = make([]byte, 1<<20)
+
+// goroutineAt reports whether goroutine gid is waiting in `state` (prefix of the dump's wait reason) with
+// `frame` in its innermost non-runtime function.
+func goroutineAt(gid int64, state, frame string) bool {
+	if gid < 0 {
+		return false
+	}
+	for {
+		n := runtime.Stack(stackBuf, true)
+		if n < len(stackBuf) {
+			return goroutineAtIn(string(stackBuf[:n]), gid, state, frame)
+		}
+		stackBuf = make([]byte, 2*len(stackBuf))
+	}
+}
+
+func goroutineAtIn(dump string, gid int64, state, frame string) bool {
+	head := fmt.Sprintf("goroutine %d [", gid)
+	i := strings.Index(dump, "\n"+head)
+	if strings.HasPrefix(dump, head) {
+		i = 0
+	} else if i >= 0 {
+		i++
+	}
+	if i < 0 {
+		return false
+	}
+	blk := dump[i:]
+	if j := strings.Index(blk, "\n\n"); j >= 0 {
+		blk = blk[:j]
+	}
+	lines := strings.Split(blk, "\n")
+	if !strings.HasPrefix(lines[0][len(head):], state) {
+		return false
+	}
+	for _, l := range lines[1:] {
+		if strings.HasPrefix(l, "\t") || strings.HasPrefix(l, "runtime.") || strings.HasPrefix(l, "created by") {
+			continue
+		}
+		return strings.Contains(l, frame)
+	}
+	return false
+}
+
+func loopInSuspendReceive(p *peer) bool {
+	return goroutineAt(p.gid, "chan receive", "(*remoteReplicator).IsReady")
+}
+
+// waitStep waits until the step goroutine finished or is blocked in `<-r.suspend`. The caller guarantees that no
+// online notification for this follower is in flight (the harness delivers them itself, synchronously).
 func (w *world) waitStep(p *peer, done chan string) (string, error) {
-	deadline := time.Now().Add(20 * time.Second)
+	deadline := time.Now().Add(30 * time.Second)
+	pause := 20 * time.Microsecond
 	for {
 		select {
 		case r := <-done:
 			return w.label(r), nil
 		default:
 		}
-		st, _, susp, ok := replica.VerifC08ReplicatorInfo(w.lp, p.id)
-		if ok && susp && models.ReplicatorState(st) == models.ReplicatorFailureState {
-			// parked (or about to park) on the suspend channel
+		// (cheap filter first: in every shape with a flag the loop sets isSuspend before it blocks)
+		if _, _, susp, ok := replica.VerifC08ReplicatorInfo(w.lp, p.id); ok && susp && loopInSuspendReceive(p) {
 			select {
 			case r := <-done:
 				return w.label(r), nil
-			case <-time.After(2 * time.Millisecond):
+			default:
 			}
 			p.pending = done
 			return "parked", nil
@@ -804,7 +893,10 @@ func (w *world) waitStep(p *peer, done chan string) (string, error) {
 		if time.Now().After(deadline) {
 			return "hang", errors.New("replica step neither finished nor parked")
 		}
-		time.Sleep(20 * time.Microsecond)
+		time.Sleep(pause)
+		if pause < 2*time.Millisecond {
+			pause *= 2
+		}
 	}
 }
 
@@ -819,26 +911,28 @@ func (w *world) windowHook() {
 	p.live = true
 	fn := w.sm.fns[p.id]
 	done := w.winDone
+	gidCh := make(chan int64, 1)
 	go func() {
 		defer close(done)
+		gidCh <- curGoid()
 		if fn != nil {
 			fn(models.NodeOnline)
 		}
 	}()
-	// let the handler do its CAS and reach its send (a blocking send now waits for the loop's receive,
-	// a non-blocking one has already given up and the handler has returned)
-	deadline := time.Now().Add(5 * time.Second)
+	// let the handler run until it has returned (non-blocking send / token left) or is blocked in its send on
+	// r.suspend (a blocking send now waits for the loop's receive) — read from the goroutine dump, not timed
+	hgid := <-gidCh
+	deadline := time.Now().Add(20 * time.Second)
 	for time.Now().Before(deadline) {
 		select {
 		case <-done:
 			return
 		default:
 		}
-		if _, _, susp, ok := replica.VerifC08ReplicatorInfo(w.lp, p.id); ok && !susp {
-			time.Sleep(time.Millisecond)
+		if goroutineAt(hgid, "chan send", "handleNodeStateChangeEvent") {
 			return
 		}
-		time.Sleep(20 * time.Microsecond)
+		time.Sleep(50 * time.Microsecond)
 	}
 }
 
@@ -855,16 +949,27 @@ func (w *world) preHook() {
 	p.live = true
 	fn := w.sm.fns[p.id]
 	done := make(chan struct{})
+	gidCh := make(chan int64, 1)
 	go func() {
 		defer close(done)
+		gidCh <- curGoid()
 		if fn != nil {
 			fn(models.NodeOnline)
 		}
 	}()
-	select {
-	case <-done:
-		w.preHandled = true
-	case <-time.After(3 * time.Second):
+	hgid := <-gidCh
+	deadline := time.Now().Add(20 * time.Second)
+	for time.Now().Before(deadline) {
+		select {
+		case <-done:
+			w.preHandled = true
+			return
+		default:
+		}
+		if goroutineAt(hgid, "chan send", "handleNodeStateChangeEvent") {
+			return // a handler that blocks here waits for the loop's receive: let the loop go on
+		}
+		time.Sleep(50 * time.Microsecond)
 	}
 }
 
@@ -882,14 +987,34 @@ func (w *world) waitWindowStep(p *peer, done chan string) (string, error) {
 		return "hang", errors.New("replica step with an online notification in its suspend window neither finished nor lost its wake-up")
 	case <-w.winDone:
 	}
-	// the handler has returned: with a blocking send the loop holds the token and finishes
-	select {
-	case r := <-done:
-		return w.label(r), nil
-	case <-time.After(3 * time.Second):
-		p.pending = done
-		p.lostWake = true
-		return "parked", nil
+	// the handler has returned: whatever it had to hand over is handed over (a blocking send has met the loop's
+	// receive, a token sits in the channel) or dropped. The loop either finishes its call, or it is blocked in
+	// `<-r.suspend` with nothing on the way: the wake-up is lost.
+	deadline := time.Now().Add(30 * time.Second)
+	pause := 20 * time.Microsecond
+	for {
+		select {
+		case r := <-done:
+			return w.label(r), nil
+		default:
+		}
+		if loopInSuspendReceive(p) {
+			select {
+			case r := <-done:
+				return w.label(r), nil
+			default:
+			}
+			p.pending = done
+			p.lostWake = true
+			return "parked", nil
+		}
+		if time.Now().After(deadline) {
+			return "hang", errors.New("replica step with an online notification in its suspend window neither finished nor blocked in its receive")
+		}
+		time.Sleep(pause)
+		if pause < 2*time.Millisecond {
+			pause *= 2
+		}
 	}
 }
 
@@ -916,14 +1041,17 @@ func (w *world) label(r string) string {
 func (w *world) startStep(p *peer) chan string {
 	done := make(chan string, 1)
 	lp := w.lp
+	gidCh := make(chan int64, 1)
 	go func() {
 		defer func() {
 			if r := recover(); r != nil {
 				done <- fmt.Sprintf("panic:%v", r)
 			}
 		}()
+		gidCh <- curGoid()
 		done <- replica.VerifC08ReplicaStep(lp, p.id)
 	}()
+	p.gid = <-gidCh
 	return done
 }
 
